@@ -401,7 +401,7 @@ def check_pesd(rep, prog):
              'header_data_length too small for the announced timestamps, bad start code, bad marker bits, PES_packet_length 0 / exact / too small) cut at '
              'every length: no octet is read outside the data received or from an unwritten local; the buffer being assembled is output, kept for more data '
              'or freed - never lost; a complete legal header is removed exactly (9 + PES_header_data_length octets, 6 for streams without optional header) '
-             'and the payload output unchanged; the timestamps attached are the coded ones')
+             'and the payload output unchanged; the timestamps attached are the coded ones, the PTS-DTS delay being their difference modulo 2^33 (pairs that straddle the wrap included)')
     R = Runner(rep, 'R-pesd')
     PTS, DTS = 0x123456789, 0x123456789 - 3003
     variants = []
@@ -411,6 +411,10 @@ def check_pesd(rep, prog):
             for hl in sorted({nat, nat + 3, max(0, nat - 2)}):
                 for lenk in ('zero', 'exact', 'small'):
                     variants.append(('opt', sid, pts, dts, hl, lenk, 'ok'))
+    # the 33-bit counter wraps between the DTS and the PTS of one unit (the delay is the difference modulo 2^33), and at its top
+    for pts, dts in ((1800, (1 << 33) - 1800), ((1 << 33) - 1, (1 << 33) - 3004), (0, (1 << 33) - 1)):
+        for lenk in ('zero', 'exact'):
+            variants.append(('opt', 0xe0, pts, dts, 10, lenk, 'ok'))
     variants.append(('opt', 0xe0, PTS, None, 5, 'zero', 'badstart'))
     variants.append(('opt', 0xe0, PTS, None, 5, 'zero', 'badmarker'))
     for sid in (0xbf, 0xf0, 0xbe):
@@ -499,9 +503,10 @@ def check_pesd(rep, prog):
                             len(odata or []), (odata or [None])[:1], len(data) - exp[1], data[exp[1]:exp[1] + 1])
                     if kind == 'opt' and pts is not None:
                         d = dts if dts is not None else pts
-                        if attrs.get('clock.dts_orig') != d * 300 or attrs.get('clock.dts_pts_delay') != (pts - d) * 300:
-                            return 'timestamps attached dts_orig=%s delay=%s, coded dts=%d delay=%d (27 MHz)' % (
-                                attrs.get('clock.dts_orig'), attrs.get('clock.dts_pts_delay'), d * 300, (pts - d) * 300)
+                        delay = ((pts - d) % (1 << 33)) * 300
+                        if attrs.get('clock.dts_orig') != d * 300 or attrs.get('clock.dts_pts_delay') != delay:
+                            return 'timestamps attached dts_orig=%s delay=%s, coded dts=%d delay=%d (27 MHz, difference modulo 2^33)' % (
+                                attrs.get('clock.dts_orig'), attrs.get('clock.dts_pts_delay'), d * 300, delay)
                     elif 'clock.dts_orig' in attrs:
                         return 'a timestamp is attached although none is coded'
                 return None
